@@ -1531,3 +1531,80 @@ func init() {
 	registry["C11"].Meta.Rules["C11.19"] = "a function that is given a byte order uses it for every width: in a function with a binary.ByteOrder parameter through which integers are read or written, no integer access goes through the package's LittleEndian / BigEndian (writeUint64's 4-byte case on binary.LittleEndian byte-swaps the 4-byte addresses and sizes of a big-endian file)"
 	registry["C11"].Rules = append(registry["C11"].Rules, func(c *Ctx, r *Result) { byteOrderParamRule(c, r, "C11.19", 5) })
 }
+
+// ---- a sub-message is parsed from the bytes its size field declares (C11.20) ----
+//
+// if o + S > len(data) { error }; sub := Parse(data[o : o+S]): the size S decoded from the enclosing message bounds what the
+// sub-parser sees. An open-ended data[o:] behind the same test hands it the rest of the message as well: the datatype's properties
+// then swallow the dataspace and the value that follow, and re-encoding what was decoded is no longer the identity.
+func declaredExtentRule(c *Ctx, r *Result, rule string, floor int) {
+	n := 0
+	for _, fn := range c.LibFuncs() {
+		if fn.Blocks == nil {
+			continue
+		}
+		k := 0
+		for _, site := range callsIn(fn) {
+			g := site.Common().StaticCallee()
+			if g == nil || !inModule(fnPkgPath(g)) || !(strings.HasPrefix(g.Name(), "Parse") || strings.HasPrefix(g.Name(), "parse")) {
+				continue
+			}
+			for _, a := range site.Common().Args {
+				sl, ok := a.(*ssa.Slice)
+				if !ok || sl.Low == nil {
+					continue
+				}
+				if _, isP := sl.X.(*ssa.Parameter); !isP {
+					continue
+				}
+				// a dominating test of Low + S against len(X) with a non-constant S
+				var S ssa.Value
+				for _, b := range fn.Blocks {
+					ifi, isIf := b.Instrs[len(b.Instrs)-1].(*ssa.If)
+					if !isIf {
+						continue
+					}
+					cmp, isC := ifi.Cond.(*ssa.BinOp)
+					if !isC {
+						continue
+					}
+					for _, pair := range [][2]ssa.Value{{cmp.X, cmp.Y}, {cmp.Y, cmp.X}} {
+						add, isAdd := stripConv(pair[0]).(*ssa.BinOp)
+						if !isAdd || add.Op != token.ADD || lenOperand(pair[1]) != sl.X {
+							continue
+						}
+						var other ssa.Value
+						if add.X == sl.Low {
+							other = add.Y
+						} else if add.Y == sl.Low {
+							other = add.X
+						}
+						if other == nil {
+							continue
+						}
+						if _, isK := other.(*ssa.Const); isK {
+							continue
+						}
+						if b.Dominates(site.(ssa.Instruction).Block()) {
+							S = other
+						}
+					}
+				}
+				if S == nil {
+					continue
+				}
+				n++
+				k++
+				r.Check(sl.High != nil, rule, fmt.Sprintf("%s#%s#sub-message-bounded-by-its-declared-size-%d", c.Name(fn), g.Name(), k), c.InstrPos(site.(ssa.Instruction)), "the slice handed to "+g.Name()+" ends where the tested extent ends (an open-ended slice gives the sub-parser the rest of the enclosing message as well)")
+			}
+		}
+	}
+	if n < floor {
+		r.Shortfall(c, rule, fmt.Sprintf("%s: only %d sub-message parses behind an extent test found (expected >= %d)", rule, n, floor))
+	}
+}
+
+func init() {
+	registry["C11"].Meta.Rules["C11.20"] = "a sub-message is parsed from the bytes its size field declares: where a test of o + S against len(data) (S not a constant) stands before Parse*(data[o:...]), the slice is closed at its upper end (with data[o:] the datatype parser of an attribute message also takes the dataspace and the value as properties: decoding and re-encoding an opaque or variable-length attribute grows it on every cycle)"
+	registry["C11"].Rules = append(registry["C11"].Rules, func(c *Ctx, r *Result) { declaredExtentRule(c, r, "C11.20", 2) })
+}
